@@ -665,6 +665,47 @@ def r5_promotion_complete(ctx):
                 if any(p.endswith("alloc_str") for p in prod):
                     continue  # a fresh pooled copy
                 guards = {sw[S2]: al for S2, al in cp.constraints(b) if S2 in sw and not (S2 in weak and list(al) == [weak[S2]])}
+                if rv["variant"] == "Borrowed" and not (guards.get("contains_ptr") == [0] and guards.get("contains") == [0]):
+                    # the disjunction may have been given a name (`let transient = a || b; if !transient {..}`): the named
+                    # flag is false only through the definition on the path where `a` was false and that copies b's result
+                    for S2, al in cp.constraints(b):
+                        t2 = cp.blocks[S2]["t"]
+                        pl2 = (t2["d"].get("copy") or t2["d"].get("move")) if isinstance(t2["d"], dict) else None
+                        if pl2 is None or pl2["p"] or list(al) != [0] or cp.locals[pl2["l"]]["ty"].strip() != "bool":
+                            continue
+                        root = pl2["l"]
+                        for _ in range(3):      # through plain copies of the flag
+                            dd = cp.whole_defs(root)
+                            if len(dd) == 1 and dd[0][1] != "t" and dd[0][2]["rv"]["k"] == "use" and isinstance(dd[0][2]["rv"]["a"], dict) and (dd[0][2]["rv"]["a"].get("copy") or dd[0][2]["rv"]["a"].get("move")) and not (dd[0][2]["rv"]["a"].get("copy") or dd[0][2]["rv"]["a"].get("move"))["p"]:
+                                root = (dd[0][2]["rv"]["a"].get("copy") or dd[0][2]["rv"]["a"].get("move"))["l"]
+                            else:
+                                break
+                        if S2 in sw and len(cp.whole_defs(root)) < 2:
+                            continue        # a plain call result: already among the guards
+                        g2 = dict(guards)
+                        falsifiable = True
+                        for (bd, kd, std) in cp.whole_defs(root):
+                            if kd == "t":
+                                cal = (std.get("res") or std.get("callee") or "")
+                                g2[str(cal).split("::")[-1].split(">")[0]] = [0]
+                                g2.update({sw[S3]: al3 for S3, al3 in cp.constraints(bd) if S3 in sw})
+                                continue
+                            a_ = std["rv"].get("a") if std["rv"]["k"] == "use" else None
+                            if isinstance(a_, dict) and a_.get("int") == 1:
+                                continue        # this definition makes the flag true: not on a path to the false outcome
+                            if isinstance(a_, dict) and a_.get("int") == 0:
+                                falsifiable = False
+                                continue
+                            src_pl = (a_.get("copy") or a_.get("move")) if isinstance(a_, dict) else None
+                            if src_pl is not None and not src_pl["p"]:
+                                for (b3, k3, st3) in cp.whole_defs(src_pl["l"]):
+                                    if k3 == "t":
+                                        g2[str(st3.get("res") or st3.get("callee") or "").split("::")[-1]] = [0]
+                                g2.update({sw[S3]: al3 for S3, al3 in cp.constraints(bd) if S3 in sw})
+                            else:
+                                falsifiable = False
+                        if falsifiable:
+                            guards = g2
                 if rv["variant"] == "Borrowed":
                     ok = guards.get("contains_ptr") == [0] and guards.get("contains") == [0]
                     if ok:
@@ -883,6 +924,29 @@ def quiet_edges(ctx, fn):
                 r, segs = subject(fn, e[2][0])
                 g = (r, segs + ("[*]",))
                 used = [c.callee for c in clo.calls() if c.callee in qp][0]
+        if g is None and e[2] and e[1] in ctx.lib.fns:
+            # a helper that asks the predicate of every element of the list it is given
+            # (`fn any_may_run_code(exprs) -> bool { exprs.iter().any(|e| may_run_code(e)) }`)
+            h = ctx.lib.fns[e[1]]
+            if h.file == "src/runtime.rs" and h.locals[0]["ty"] == "bool" and "{closure" not in h.id:
+                anys = [c for c in h.calls() if (c.callee or "").endswith("Iterator>::any")]
+                rets = origins(h, {"copy": {"l": 0, "p": []}}, 6)
+                if len(anys) == 1 and all(k == "call" and det[0].endswith("Iterator>::any") for (_b, k, det) in rets):
+                    he = h.deep(anys[0].args[0], 12)
+                    hr, hsegs = subject(h, he)
+                    cl = anys[0].args[1] if len(anys[0].args) > 1 else None
+                    cty = h.locals[(cl.get("move") or cl.get("copy"))["l"]]["ty"] if isinstance(cl, dict) and (cl.get("move") or cl.get("copy")) else ""
+                    mclo = re.search(r"\{closure#\d+\}", cty)
+                    clo = ctx.lib.fns.get("%s::%s" % (h.id, mclo.group(0))) if mclo else None
+                    if clo is None:
+                        clos = list(ctx.lib.closures_of(h.id))
+                        clo = clos[0] if len(clos) == 1 else None
+                    if hr[0] == "arg" and not hsegs and clo is not None and any(c.callee in qp for c in clo.calls()) and not any(c.callee and c.callee not in qp and parent_fn(c.callee).startswith("runtime::") for c in clo.calls()):
+                        ai = hr[1] - 1
+                        if ai < len(e[2]):
+                            r, segs = subject(fn, e[2][ai])
+                            g = (r, segs + ("[*]",))
+                            used = [c.callee for c in clo.calls() if c.callee in qp][0]
         if g is None:
             continue
         out.append((S, "else" if flip else 0, g, used))
